@@ -57,6 +57,10 @@ type L2Params struct {
 	TagLimit int      `json:"tag_limit,omitempty"`
 	ByDigest bool     `json:"by_digest,omitempty"`
 	Subject  bool     `json:"subject,omitempty"`
+	// manifest-delete of a manifest with a subject: afterwards the same client lists the referrers of that subject and
+	// the listing becomes part of the result (what the client remembered from the delete's own referrers requests must
+	// not change a later answer)
+	ThenList bool `json:"then_list,omitempty"`
 	NRef     int      `json:"nref,omitempty"`
 	Index    bool     `json:"index,omitempty"`
 	Cross    string   `json:"cross,omitempty"` // image-copy: same | from-other | to-other
@@ -553,6 +557,19 @@ func (e *l2env) runOp(c Case) (res l2Result) {
 			res.err = rc.ManifestDelete(ctx, r, regclient.WithManifestCheckReferrers())
 		} else {
 			res.err = rc.ManifestDelete(ctx, r)
+		}
+		if p.Subject && p.ThenList && res.err == nil {
+			rl, lerr := rc.ReferrerList(ctx, src.SetDigest(dig(ct.m1)))
+			if lerr != nil {
+				res.err = fmt.Errorf("referrer list after the delete: %w", lerr)
+			} else {
+				ds := []string{}
+				for _, d := range rl.Descriptors {
+					ds = append(ds, d.Digest.String()[7:15])
+				}
+				sort.Strings(ds)
+				res.out = "then-list=" + strings.Join(ds, ",")
+			}
 		}
 	case "tag-list":
 		var opts []scheme.TagOpts
